@@ -94,6 +94,16 @@ def run(chk):
             chk.fail("degree and radian input agree", inp, out[:, i].tolist(), o2[:, i].tolist())
         if i == 0 and len(chk.samples) < 2:
             chk.sample(dict(inp, result=out[:, i].tolist()))
+    # integer-valued motions (whole metres, whole degrees) are transformed like float ones
+    for _ in range(30 if chk.quick else 300):
+        mot_i = np.array([[rng.randint(-20, 20)] for _ in range(3)] + [[rng.randint(-170, 170)] for _ in range(3)])
+        ref = [float(rng.randint(-30, 30)) for _ in range(3)]
+        oi = np.asarray(transform_motion(mot_i, ref), dtype=float)
+        of = transform_motion(mot_i.astype(float), ref)
+        chk.count("mo.int-motion")
+        if not np.allclose(oi, of, rtol=0, atol=1e-9):
+            chk.fail("integer and float input of the same motion agree", dict(motion=mot_i[:, 0].tolist(), newref=ref, rotunit="deg"),
+                     of[:, 0].tolist(), oi[:, 0].tolist())
     # two body points keep their distance
     for _ in range(50 if chk.quick else 500):
         mot = np.array([[rng.uniform(-5, 5)] for _ in range(3)] + [[rng.uniform(-180, 180)] for _ in range(3)])
